@@ -5,6 +5,7 @@ package main
 import (
 	"fmt"
 	"math"
+	"math/big"
 	"reflect"
 	"strings"
 
@@ -46,14 +47,8 @@ func (m measure) cmp(b int) int {
 		}
 		return 0
 	}
-	fb := float64(b)
-	switch {
-	case m.f < fb:
-		return -1
-	case m.f > fb:
-		return 1
-	}
-	return 0
+	// exact: a 64-bit integer bound is not always a float64 (2^53+1 is not)
+	return new(big.Float).SetFloat64(m.f).Cmp(new(big.Float).SetInt64(int64(b)))
 }
 
 func measureOf(v reflect.Value) measure {
@@ -325,6 +320,15 @@ func kinds(thorough bool) []kindSpec {
 		}
 		v64 = append(v64, rv(1e15), rv(-1e15), rv(0.1), rv(math.SmallestNonzeroFloat64), rv(math.MaxFloat64))
 		v32 = append(v32, rv(float32(1e15)), rv(float32(0.1)), rv(float32(math.SmallestNonzeroFloat32)), rv(float32(math.MaxFloat32)))
+		// values at the edge of float32's integer precision (2^24, 2^25): the bounds next to them are integers that
+		// float32 cannot hold, so a bound that is narrowed to the value's type moves onto the value
+		for _, f := range []float64{16777214, 16777216, 16777218, 33554430, 33554432, 33554436, 100000000, -16777216, -16777218} {
+			v32 = append(v32, rv(float32(f)))
+			v64 = append(v64, rv(f), rv(f+1))
+		}
+		// float64 values at the edge of its integer precision (2^53): the integer bound next to them cannot be held by a
+		// float64 either
+		v64 = append(v64, rv(float64(1<<53)), rv(float64(1<<53+2)), rv(-float64(1<<53)))
 		ks = append(ks, kindSpec{"float32", v32}, kindSpec{"float64", v64})
 	}
 	// slices
@@ -362,7 +366,7 @@ func run(c *runner.Ctx) {
 	for b := blo; b <= bhi; b++ {
 		bounds1 = append(bounds1, b)
 	}
-	bounds1 = append(bounds1, 127, 128, 255, 256, -128, -129, 9, 10, 24, 25, 40, 41, 254, 257, 258, 999, 1000, 1001, 765, 768, 1020, 1024)
+	bounds1 = append(bounds1, 16777215, 16777216, 16777217, 16777219, 33554431, 33554433, 100000001, -16777217, 127, 128, 255, 256, -128, -129, 9, 10, 24, 25, 40, 41, 254, 257, 258, 999, 1000, 1001, 765, 768, 1020, 1024)
 	// boundaries of the wider integer kinds (the bound is parsed as int: 64-bit here)
 	bounds1 = append(bounds1, 32767, 32768, -32768, -32769, 65535, 65536, math.MaxInt32, math.MaxInt32+1, math.MinInt32, math.MinInt32-1, 1<<53, 1<<53+1, math.MaxInt64, math.MaxInt64-1, math.MinInt64, math.MinInt64+1)
 	for _, r := range rules {
@@ -382,7 +386,7 @@ func run(c *runner.Ctx) {
 					bl = append(bl, [2]int{1, 127}, [2]int{1, 128}, [2]int{-128, 127}, [2]int{0, 255}, [2]int{1, 255}, [2]int{-129, 256},
 						[2]int{-32768, 32767}, [2]int{-32769, 32768}, [2]int{0, 65535}, [2]int{1, 65536}, [2]int{math.MinInt32, math.MaxInt32}, [2]int{1 << 53, 1<<53 + 1},
 						[2]int{math.MinInt64, math.MaxInt64}, [2]int{math.MinInt64 + 1, math.MaxInt64 - 1}, [2]int{8, 24}, [2]int{24, 25},
-						[2]int{255, 256}, [2]int{256, 257}, [2]int{256, 1000}, [2]int{257, 999}, [2]int{86, 255}, [2]int{1, 1023}, [2]int{1000, 1000}, [2]int{768, 3000}, [2]int{300, 1024})
+						[2]int{16777215, 16777217}, [2]int{16777217, 33554433}, [2]int{-16777217, 16777217}, [2]int{255, 256}, [2]int{256, 257}, [2]int{256, 1000}, [2]int{257, 999}, [2]int{86, 255}, [2]int{1, 1023}, [2]int{1000, 1000}, [2]int{768, 3000}, [2]int{300, 1024})
 				} else {
 					for _, b := range bounds1 {
 						bl = append(bl, [2]int{b, b})
@@ -699,6 +703,10 @@ func evalOne(c *runner.Ctx, rname, kname string, car carrier.Kind, ruleText stri
 	}
 	c.Outcome(dir)
 	sig := fmt.Sprintf("%s/%s/%s/%s", rname, kindClass(kname), rel, dir)
+	if m.kind == 'f' && math.Abs(m.f) >= 1<<53 && (!holdsExactly(lo) || !holdsExactly(hi)) {
+		// one call site: a float value of 2^53 or more against an integer bound that float64 cannot hold
+		sig = "float-at-2^53-or-more/bound-that-float64-cannot-hold/" + dir
+	}
 	if car == carrier.MapIface && dir == "expected-violation-got-none" {
 		// one call site: values carried as interface{} (map[string]interface{})
 		sig = "map[string]interface{}/expected-violation-got-none"
@@ -708,6 +716,12 @@ func evalOne(c *runner.Ctx, rname, kname string, car carrier.Kind, ruleText stri
 	}
 	c.Violation(sig, map[string]interface{}{
 		"rule": ruleText, "kind": kname, "carrier": car, "value": fmt.Sprint(v.Interface()), "measure_vs_bounds": rel, "expected_violated": want, "error": errStr, "clauses": nclauses})
+}
+
+// holdsExactly: the integer survives the conversion to float64 and back.
+func holdsExactly(b int) bool {
+	f := float64(b)
+	return f < 1<<63 && f >= -(1<<63) && int(f) == b
 }
 
 func main() {
